@@ -211,13 +211,18 @@ def WFInv (i : Inv) : Prop := -(2 ^ 31 : Int) ≤ i.type ∧ i.type < 2 ^ 31 ∧
 def WFLocator (l : Locator) : Prop :=
   -(2 ^ 31 : Int) ≤ l.nVersion ∧ l.nVersion < 2 ^ 31 ∧ l.vHave.length < 2 ^ 64 ∧ ∀ h ∈ l.vHave, h.length = 32
 
+/-- a field that the protocol version carries is present and in range -/
+def optWF {α} (P : α → Prop) : Option α → Prop
+  | some x => P x
+  | none => False
+
 /-- `version` with every field the protocol version carries: nVersion ≥ 70001 -/
 def WFVersion (v : VersionMsg) : Prop :=
   70001 ≤ v.nVersion ∧ v.nVersion < 2 ^ 31 ∧ v.nServices < 2 ^ 64 ∧
   -(2 ^ 63 : Int) ≤ v.nTime ∧ v.nTime < 2 ^ 63 ∧ WFAddrNoTime v.addrTo ∧
-  (∃ a, v.addrFrom = some a ∧ WFAddrNoTime a) ∧ (∃ n, v.nNonce = some n ∧ n < 2 ^ 64) ∧
-  (∃ s, v.strSubVer = some s ∧ s.length ≤ maxSize) ∧
-  (∃ h, v.nStartingHeight = some h ∧ -(2 ^ 31 : Int) ≤ h ∧ h < 2 ^ 31) ∧ v.fRelay < 256
+  optWF WFAddrNoTime v.addrFrom ∧ optWF (· < 2 ^ 64) v.nNonce ∧
+  optWF (fun s : Bytes => s.length ≤ maxSize) v.strSubVer ∧
+  optWF (fun h : Int => -(2 ^ 31 : Int) ≤ h ∧ h < 2 ^ 31) v.nStartingHeight ∧ v.fRelay < 256
 
 /-- the payload-level well-formedness of each message type -/
 def WFMsg : Msg → Prop
@@ -238,6 +243,29 @@ def WFMsg : Msg → Prop
   | .pong n => n < 2 ^ 64
   | .reject m c r => m.length ≤ maxSize ∧ c.length = 1 ∧ r.length ≤ maxSize
   | .mempool => True
+
+/-! the field-range predicates are decidable -/
+
+instance decOptWF {α} (P : α → Prop) [DecidablePred P] : DecidablePred (optWF P) := fun o =>
+  match o with
+  | some x => inferInstanceAs (Decidable (P x))
+  | none => inferInstanceAs (Decidable False)
+
+instance decWFAddr : DecidablePred WFAddr := fun a => by unfold WFAddr; exact inferInstance
+instance decWFAddrNoTime : DecidablePred WFAddrNoTime := fun a => by unfold WFAddrNoTime; exact inferInstance
+instance decWFInv : DecidablePred WFInv := fun a => by unfold WFInv; exact inferInstance
+instance decWFLocator : DecidablePred WFLocator := fun a => by unfold WFLocator; exact inferInstance
+instance decWFVersion : DecidablePred WFVersion := fun a => by unfold WFVersion; exact inferInstance
+instance decWFHeader18 : DecidablePred WFHeader := fun a => by unfold WFHeader; exact inferInstance
+instance decWFOutPoint18 : DecidablePred WFOutPoint := fun a => by unfold WFOutPoint; exact inferInstance
+instance decWFTxIn18 : DecidablePred WFTxIn := fun a => by unfold WFTxIn; exact inferInstance
+instance decWFTxOut18 : DecidablePred WFTxOut := fun a => by unfold WFTxOut; exact inferInstance
+instance decWFWitStack18 : DecidablePred WFWitStack := fun a => by unfold WFWitStack; exact inferInstance
+instance decWFTx18 : DecidablePred WFTx := fun a => by unfold WFTx; exact inferInstance
+instance decWFBlock18 : DecidablePred WFBlock := fun a => by unfold WFBlock; exact inferInstance
+
+instance decWFMsg : DecidablePred WFMsg := fun m => by
+  cases m <;> (unfold WFMsg; exact inferInstance)
 
 /-- what parsing yields: a transaction whose witness stacks are all empty comes back without
     witness entries (C01's `normTx`); every other field value is unchanged -/
